@@ -457,6 +457,19 @@ _sched = st.fixed_dictionaries({'prefix': st.lists(st.integers(0, 3), max_size=3
 @st.composite
 def mc_case(draw):
     steps = draw(st.lists(_mc_step(), max_size=12))
+    # a control loop re-issuing a motion: consecutive linear motions that keep the vertical speed (and only change the rest)
+    last = None
+    for st_ in steps:
+        if st_['op'] == 'start_linear':
+            if last is not None and draw(st.booleans()):
+                st_['vec'] = [st_['vec'][0], st_['vec'][1], last['vec'][2]]
+            last = st_
+    if draw(st.sampled_from([False, False, True])):
+        vz = draw(st.sampled_from([0.1, -0.1, 0.25]))
+        extra = [{'op': 'start_linear', 'vec': [draw(_comp), draw(_comp), vz], 'rate': 0.0}, {'op': 'wait', 't': draw(st.sampled_from([0.2, 0.33, 1.0]))},
+                 {'op': 'start_linear', 'vec': [draw(_comp), draw(_comp), vz], 'rate': 0.0}, {'op': 'wait', 't': 0.2}]
+        pos = draw(st.integers(0, len(steps)))
+        steps[pos:pos] = extra
     return {'height': draw(st.sampled_from([0.3, 0.5, 1.0, 0.25])), 'context': draw(st.booleans()), 'steps': steps,
             'raise_at': draw(st.one_of(st.none(), st.none(), st.integers(0, len(steps)))), 'schedule': draw(_sched),
             'stall': draw(st.one_of(st.none(), st.none(), st.fixed_dictionaries({'at': st.integers(1, 60), 'dur': st.sampled_from([0.5, 1.5, 3.0])})))}
